@@ -243,6 +243,12 @@ def default_result(stub, k, fname, args):
     return None
 
 
+def procnat_name(fname):
+    """Per-process native calls: the ones faults are enumerated over."""
+    return fname.startswith(("proc_", "query_process")) or fname in (
+        "getpriority", "setpriority", "net_connections")
+
+
 def make_native(stub, platform):
     """Stub native module(s) for `platform`."""
     def build(fullname, names, posix=False):
@@ -262,6 +268,18 @@ def make_native(stub, platform):
                 if stub.armed and c.inop:
                     stub.calls.append((idx, fname))
                     flt = stub.faults.get(idx)
+                    if flt is not None and len(stub.faults) > 1 and (
+                            pid is None or not procnat_name(fname)):
+                        # a fault of a multi-fault plan whose index (taken
+                        # from the fault-free dry run) lands on a system-wide
+                        # call (or on a helper that cannot fail that way,
+                        # like check_pid_range) because an earlier fault
+                        # changed the path: the world changes now, but only
+                        # the per-process calls that single faults are
+                        # enumerated over answer a per-process errno
+                        apply_fault_world(k, flt)
+                        k.stat_inc("fault_landed_on_system_wide_call")
+                        flt = None
                     if flt is not None:
                         apply_fault_world(k, flt)
                         e = make_error(flt["errno"], flt.get("winerror"))
@@ -1131,12 +1149,8 @@ class Foreign(EngineBase):
                         i, j = sorted(rng.sample(range(len(acc)), 2))
 
                         def procnat(a_):
-                            return a_[1].startswith("native:") and (
-                                a_[1][7:].startswith(("proc_",
-                                                      "query_process"))
-                                or a_[1][7:] in ("getpriority",
-                                                 "setpriority",
-                                                 "net_connections"))
+                            return a_[1].startswith("native:") and \
+                                procnat_name(a_[1][7:])
                         if not (procnat(acc[i]) and procnat(acc[j])):
                             continue
                         if pidkind == "zero":
